@@ -83,7 +83,7 @@ def run(ctx):
         ctx.ob("C15.F.parsed-types", f.key, "parse::<syn::Lit> / parse::<syn::Meta>", tys == ["syn::attr::Meta", "syn::lit::Lit"], "%s" % tys)
     f = ctx.fn("darling_core::ast::data::NestedMeta::parse_meta_list")
     if f:
-        rs = [e for _, e in ctx.ret_exprs(f)]
+        rs = ctx.ret_values(f)
         ok = len(rs) == 1 and "parse_terminated" in rs[0] and "Parser>::parse2(" in rs[0].replace("syn::parse::Parser::parse2", "Parser>::parse2") and "a1" in rs[0]
         ctx.ob("C15.F.list-is-parse-terminated", f.key, "Punctuated::<NestedMeta, Comma>::parse_terminated.parse2(tokens)", ok, "%s" % [r[:240] for r in rs])
         cl = ctx.closures_of(f)
@@ -161,7 +161,7 @@ def run(ctx):
     for h, want in leaves.items():
         f = ctx.fn(T + h)
         if f:
-            rs = [e for _, e in ctx.ret_exprs(f)]
+            rs = ctx.ret_values(f)
             ctx.ob("C15.G.default-hook-rejects", f.key, "default %s" % h, rs == [want], "returns %s" % rs)
     # the trait has exactly the eleven hooks the routing above covers
     core = ctx.core("on")
